@@ -1074,6 +1074,10 @@ SDcreate(int32       fid,  /* IN: file ID */
         HGOTO_ERROR(DFE_ARGS, FAIL);
     }
 
+    /* nothing can be stored through a file opened read-only */
+    if (!(handle->flags & NC_RDWR))
+        HGOTO_ERROR(DFE_DENIED, FAIL);
+
     /* fudge the name since its optional */
     if ((name == NULL) || (name[0] == ' ') || (name[0] == '\0'))
         name = "DataSet";
@@ -1306,6 +1310,10 @@ SDsetdimname(int32       id, /* IN: dataset ID */
         HGOTO_ERROR(DFE_ARGS, FAIL);
     }
 
+    /* nothing can be stored through a file opened read-only */
+    if (!(handle->flags & NC_RDWR))
+        HGOTO_ERROR(DFE_DENIED, FAIL);
+
     /* get the dimension structure */
     dim = SDIget_dim(handle, id);
     if (dim == NULL) {
@@ -1496,6 +1504,10 @@ SDsetrange(int32 sdsid, /* IN: dataset ID */
         HGOTO_ERROR(DFE_ARGS, FAIL);
     }
 
+    /* nothing can be stored through a file opened read-only */
+    if (!(handle->flags & NC_RDWR))
+        HGOTO_ERROR(DFE_DENIED, FAIL);
+
     var = SDIget_var(handle, sdsid);
     if (var == NULL) {
         HGOTO_ERROR(DFE_ARGS, FAIL);
@@ -1659,6 +1671,10 @@ SDsetattr(int32       id,    /* IN: object ID */
     if (SDIapfromid(id, &handle, &ap) == FAIL) {
         HGOTO_ERROR(DFE_ARGS, FAIL);
     }
+
+    /* nothing can be stored through a file opened read-only */
+    if (!(handle->flags & NC_RDWR))
+        HGOTO_ERROR(DFE_DENIED, FAIL);
 
     /* still no handle ? */
     if (handle == NULL) {
@@ -1861,6 +1877,10 @@ SDwritedata(int32  sdsid,  /* IN: dataset ID */
         dim = SDIget_dim(handle, sdsid);
     }
 
+    /* nothing can be stored through a file opened read-only */
+    if (!(handle->flags & NC_RDWR))
+        HGOTO_ERROR(DFE_DENIED, FAIL);
+
     if (handle->vars == NULL)
         HGOTO_ERROR(DFE_ARGS, FAIL);
 
@@ -2007,6 +2027,10 @@ SDsetdatastrs(int32       sdsid, /* IN: dataset ID */
         HGOTO_ERROR(DFE_ARGS, FAIL);
     }
 
+    /* nothing can be stored through a file opened read-only */
+    if (!(handle->flags & NC_RDWR))
+        HGOTO_ERROR(DFE_DENIED, FAIL);
+
     if (handle->vars == NULL) {
         HGOTO_ERROR(DFE_ARGS, FAIL);
     }
@@ -2079,6 +2103,10 @@ SDsetcal(int32   sdsid, /* IN: dataset ID */
         HGOTO_ERROR(DFE_ARGS, FAIL);
     }
 
+    /* nothing can be stored through a file opened read-only */
+    if (!(handle->flags & NC_RDWR))
+        HGOTO_ERROR(DFE_DENIED, FAIL);
+
     if (handle->vars == NULL) {
         HGOTO_ERROR(DFE_ARGS, FAIL);
     }
@@ -2142,6 +2170,10 @@ SDsetfillvalue(int32 sdsid, /* IN: dataset ID */
     if (handle == NULL) {
         HGOTO_ERROR(DFE_ARGS, FAIL);
     }
+
+    /* nothing can be stored through a file opened read-only */
+    if (!(handle->flags & NC_RDWR))
+        HGOTO_ERROR(DFE_DENIED, FAIL);
 
     if (handle->vars == NULL) {
         HGOTO_ERROR(DFE_ARGS, FAIL);
@@ -2549,6 +2581,10 @@ SDsetdimstrs(int32       id, /* IN: dimension ID */
         HGOTO_ERROR(DFE_ARGS, FAIL);
     }
 
+    /* nothing can be stored through a file opened read-only */
+    if (!(handle->flags & NC_RDWR))
+        HGOTO_ERROR(DFE_DENIED, FAIL);
+
     /* get the dimension structure */
     dim = SDIget_dim(handle, id);
     if (dim == NULL) {
@@ -2675,6 +2711,10 @@ SDsetdimscale(int32 id,    /* IN: dimension ID */
     if (handle == NULL) {
         HGOTO_ERROR(DFE_ARGS, FAIL);
     }
+
+    /* nothing can be stored through a file opened read-only */
+    if (!(handle->flags & NC_RDWR))
+        HGOTO_ERROR(DFE_DENIED, FAIL);
 
     /* get the dimension structure */
     dim = SDIget_dim(handle, id);
@@ -4465,6 +4505,10 @@ SDsetdimval_comp(int32 dimid,    /* IN: dimension ID, returned from SDgetdimid *
     if (handle == NULL) {
         HGOTO_ERROR(DFE_ARGS, FAIL);
     }
+
+    /* nothing can be stored through a file opened read-only */
+    if (!(handle->flags & NC_RDWR))
+        HGOTO_ERROR(DFE_DENIED, FAIL);
 
     /* get the dimension structure */
     dim = SDIget_dim(handle, dimid);
